@@ -598,9 +598,24 @@ def good_jwt(world, cfg, cid, alg, now, jti, **over):
     else:
         n = {"client_2": 1, "client_4": 2}.get(cid, 3)
         key = ("rsa" if alg == "RS256" else "ec", n)
-    spec = {"alg": alg, "key": key, "iss": cid, "aud": [ep_url(world, cfg["ep"])], "exp": now + 300, "jti": jti}
+    # exp / nbf / iat are offsets from the moment the request is sent (resolved by resolve_times)
+    spec = {"alg": alg, "key": key, "iss": cid, "aud": [ep_url(world, cfg["ep"])], "exp": 3000, "jti": jti, "rel": True}
     spec.update(over)
     return spec
+
+
+def resolve_times(rq, now):
+    out = dict(rq)
+    for f in ("assertion", "request"):
+        sp = out.get(f)
+        if isinstance(sp, dict) and sp.get("rel"):
+            sp = dict(sp)
+            del sp["rel"]
+            for t in ("exp", "nbf", "iat"):
+                if sp.get(t) is not None:
+                    sp[t] = now + sp[t]
+            out[f] = sp
+    return out
 
 
 def genuine_requests(world, cfg, now, tag):
@@ -662,15 +677,15 @@ def fault_matrix(world, cfg, now, tag):
     add("aud-two-one-good", {"assertion": J("client_2", "ES256", "aud2", aud=["https://elsewhere.example.org/", ep_url(world, cfg["ep"])])})
     add("aud-prefix", {"assertion": J("client_1", "HS256", "audp", aud=[ep_url(world, cfg["ep"]) + "/x"])})
     # assertions: time
-    add("exp-past", {"assertion": J("client_1", "HS256", "expp", exp=now - 100)})
-    add("exp-just-past", {"assertion": J("client_1", "HS256", "expj", exp=now - SKEW)})
-    add("exp-within-skew", {"assertion": J("client_1", "HS256", "exps", exp=now - SKEW + 1)})
+    add("exp-past", {"assertion": J("client_1", "HS256", "expp", exp=-100)})
+    add("exp-just-past", {"assertion": J("client_1", "HS256", "expj", exp=-SKEW)})
+    add("exp-within-skew", {"assertion": J("client_1", "HS256", "exps", exp=-SKEW + 1)})
     add("exp-absent", {"assertion": J("client_2", "RS256", "expa", exp=None)})
-    add("nbf-future", {"assertion": J("client_1", "HS256", "nbff", nbf=now + 1000)})
-    add("nbf-now", {"assertion": J("client_1", "HS256", "nbfn", nbf=now)})
-    add("nbf-old", {"assertion": J("client_1", "HS256", "nbfo", nbf=now - SKEW)})
-    add("iat-future", {"assertion": J("client_1", "HS256", "iatf", iat=now + 1000)})
-    add("iat-now", {"assertion": J("client_1", "HS256", "iatn", iat=now + SKEW)})
+    add("nbf-future", {"assertion": J("client_1", "HS256", "nbff", nbf=1000)})
+    add("nbf-now", {"assertion": J("client_1", "HS256", "nbfn", nbf=0)})
+    add("nbf-old", {"assertion": J("client_1", "HS256", "nbfo", nbf=-SKEW)})
+    add("iat-future", {"assertion": J("client_1", "HS256", "iatf", iat=1000)})
+    add("iat-now", {"assertion": J("client_1", "HS256", "iatn", iat=SKEW)})
     add("jti-absent", {"assertion": J("client_1", "HS256", "jtia", jti=None)})
     # assertions: keys / algorithms
     add("hs-other-clients-secret", {"assertion": J("client_1", "HS256", "hsx", key=("sym", s["client_2"]))})
@@ -694,14 +709,14 @@ def fault_matrix(world, cfg, now, tag):
     add("iss-vs-body-client", {"client_id": "client_2", "assertion": J("client_1", "HS256", "ivb")})
     add("iss-vs-body-secret", {"client_id": "client_2", "client_secret": "wrong", "assertion": J("client_1", "HS256", "ivs")})
     add("bad-assertion-good-post", {"client_id": "client_2", "client_secret": s["client_2"],
-                                    "assertion": J("client_1", "HS256", "bagp", exp=now - 100)})
+                                    "assertion": J("client_1", "HS256", "bagp", exp=-100)})
     add("badsig-assertion-good-post", {"client_id": "client_2", "client_secret": s["client_2"],
                                        "assertion": J("client_1", "HS256", "bsgp", key=("sym", "wrong-key-0123456789abcdef0123456789"))})
     # request objects
     add("request-param-wrong-aud", {"request": J("client_2", "RS256", "rpa", aud=["https://elsewhere.example.org/"])})
     add("request-param-no-aud-hs", {"request": J("client_1", "HS256", "rph", aud=None)})
     add("request-param-other-key", {"request": J("client_2", "RS256", "rpk", key=("rsa", 2))})
-    add("request-param-expired", {"request": J("client_2", "ES256", "rpe", exp=now - 100)})
+    add("request-param-expired", {"request": J("client_2", "ES256", "rpe", exp=-100)})
     add("request-param-none", {"request": J("client_2", "none", "rpn")})
     add("request-param-notjwt", {"request": "notjwt"})
     add("request-param-no-jti", {"request": J("client_2", "ES256", "rpj", jti=None)})
@@ -811,10 +826,10 @@ def configurations(ctx, rng, worlds):
 
 def run_history(ctx, world, cfg, mode, rng, clock, tag, cases):
     world.configure(cfg)
-    clock.now = NOW0
+    clock.now = NOW0 + (rng.choice([0, 7, 1000, 86400]) if mode == "sampled" else 0)
     hist = {"accepted_jti": set()}
     plan = []
-    now = NOW0
+    now = clock.now
     gen = genuine_requests(world, cfg, now, tag)
     mat = fault_matrix(world, cfg, now, tag)
     if mode == "matrix":
@@ -833,16 +848,22 @@ def run_history(ctx, world, cfg, mode, rng, clock, tag, cases):
     jw = [(n, r) for n, r in queue if n.startswith("genuine:") and ("assertion" in r or "request" in r)]
     ks = [0, 1, 5, 50] if cfg.get("long") else ([0, 1, 5] if mode == "matrix" else [rng.choice([0, 1, 5])])
     filler = [x for x in gen if x[0] in ("genuine:post", "genuine:basic", "genuine:none")]
+    queue = [(n, r, None) for n, r in queue]
     for k, (n, r) in zip(ks, rng.sample(jw, len(jw))):
         at = [i for i, x in enumerate(queue) if x[1] is r][0] + 1 + k
         while len(queue) < at:
-            queue.append(rng.choice(filler))
-        queue.insert(at, ("replay-after-%d:%s" % (k, n), r))
-    for name, rq in queue:
-        if rng.random() < 0.1:
-            d = rng.choice([1, 14, 15, 16, 60, 290])
-            clock.tick(d)
+            queue.append(rng.choice(filler) + (None,))
+        queue.insert(at, ("replay-after-%d:%s" % (k, n), None, r))
+    resolved = {}
+    for name, tmpl, replay_of in queue:
+        if mode != "genuine" and rng.random() < 0.08:
+            clock.tick(rng.choice([1, 14, 15, 16, 60]))
         now = clock.now
+        if replay_of is not None:
+            rq = resolved[id(replay_of)]
+        else:
+            rq = resolve_times(tmpl, now)
+            resolved[id(tmpl)] = rq
         term, rec, unmod = run_request(ctx, world, cfg, rq, now, hist)
         rec["name"] = name
         usable = any(rq.get(k) is not None for k in ("hdr", "client_id", "access_token", "assertion", "request"))
